@@ -154,13 +154,16 @@ static void c15_gen_common(Tape &t, Case &c, bool large) {
   long a1 = t.below(2), a2 = t.below(2);
   long d1 = (!large && t.chance(1, 4)) ? 1 + (long)t.below(2) : 0;
   long d2 = (!large && t.chance(1, 4)) ? 1 + (long)t.below(2) : 0;
-  c.ops.push_back(Op("algo").I(a1).I(a2).I(d1).I(d2));
+  // the transformed formulation is built through any of the API routes (bulk load, columns then rows, rows then
+  // columns, multi-row/column calls): how an LP is entered is part of "formulation"
+  long route2 = t.chance(1, 2) ? (long)t.below(R_FILE) : (long)R_LOAD;
+  c.ops.push_back(Op("algo").I(a1).I(a2).I(d1).I(d2).I(route2));
 }
 static void c15_gen(Tape &t, Case &c) { c15_gen_common(t, c, false); }
 static void c15_gen_large(Tape &t, Case &c) { c15_gen_common(t, c, true); }
 
-static bool solve_once(const Model &m, int algo, int driver, int &status, Q &value, std::string *err) {
-  mpq_QSprob p = sut_build(m, R_LOAD, err);
+static bool solve_once(const Model &m, int algo, int driver, int route, int &status, Q &value, std::string *err) {
+  mpq_QSprob p = sut_build(m, route, err);
   if (!p) return false;
   QArr x(m.n() + m.m()), y(m.m());
   status = 0;
@@ -192,21 +195,23 @@ static void c15_run(const Case &c, Result &r) {
   static const char *kn[] = {"perm-rows", "perm-cols", "scale-rows+", "scale-rows-", "substitute", "negate-objective", "duplicate-row", "redundant-row", "split-equalities"};
   for (size_t k = 0; k < tr.i.size(); k++) { if (tr.i[k] == -1) { if (k + 1 < tr.i.size()) nkinds = (int)tr.i[k + 1]; break; } r.label(std::string("transform:") + kn[tr.i[k] % 9]); }
   int a1 = 0, a2 = 1;
-  int d1 = 0, d2 = 0;
+  int d1 = 0, d2 = 0, route2 = R_LOAD;
   if (pos < c.ops.size() && c.ops[pos].k == "algo" && c.ops[pos].i.size() >= 2) {
     a1 = (int)c.ops[pos].i[0]; a2 = (int)c.ops[pos].i[1];
     if (c.ops[pos].i.size() >= 4) { d1 = (int)c.ops[pos].i[2] % 3; d2 = (int)c.ops[pos].i[3] % 3; }
+    if (c.ops[pos].i.size() >= 5) route2 = (int)c.ops[pos].i[4] % R_FILE;
   }
   static const char *dn[] = {"exact", "direct-primal", "direct-dual"};
   r.label(std::string("driver:") + dn[d1] + "/" + dn[d2]);
+  r.label("route-transformed:" + std::to_string(route2));
   bool large = m1.m() >= 200 || m1.n() >= 400;
   r.label(large ? "size:large" : "size:small");
   r.label("family:" + family.substr(0, family.find('/')));
   int s1 = 0, s2 = 0;
   Q v1, v2;
   std::string err;
-  if (!solve_once(m1, a1, d1, s1, v1, &err)) { r.fail("solve-error:original", err); return; }
-  if (!solve_once(m2, a2, d2, s2, v2, &err)) { r.fail("solve-error:transformed", err); return; }
+  if (!solve_once(m1, a1, d1, R_LOAD, s1, v1, &err)) { r.fail("solve-error:original", err); return; }
+  if (!solve_once(m2, a2, d2, route2, s2, v2, &err)) { r.fail("solve-error:transformed", err); return; }
   auto def = [](int s) { return s == QS_LP_OPTIMAL || s == QS_LP_INFEASIBLE || s == QS_LP_UNBOUNDED; };
   r.label(strprintf("status:%d/%d", s1, s2));
   if (!def(s1) || !def(s2)) {
